@@ -126,9 +126,9 @@ type ldEvent struct {
 
 func (c *c15) run() {
 	e := c.e
-	e.Rule = "histories on a router with 5 owned external links and 2 sibling links (3 sibling-owned interfaces), BFD configured on a random subset; " +
+	e.Rule = "histories on a router with 6 owned external links (parent, 2 child, 2 core, peer) and 2 sibling links (3 sibling-owned interfaces), BFD configured on a random subset; " +
 		"events: accepted BFD control messages with every remote state (through processPkt/processBFD into the real sessions of the real udpip links), " +
-		"messages that must be discarded, messages on links without session, expiry of the detection time, and packets (transit, cross-over, origin, delivery; " +
+		"messages that must be discarded, messages on links without session, expiry of the detection time, valid one-hop packets, and SCION- and EPIC-path packets (transit, cross-over, origin, delivery; " +
 		"each also run on a twin data plane without BFD to make sure it would use the egress link); non-trivial = BFD events on links with a session and packets whose egress link has one"
 	nh := e.N(160, 2000)
 	for h := 0; h < nh; h++ {
@@ -139,7 +139,7 @@ func (c *c15) run() {
 func (c *c15) history(hidx int) {
 	r, e := c.r, c.e
 	bfd := map[uint16]bool{}
-	for _, id := range []uint16{ifP, ifC, ifC2, ifK, ifK2, ifSC, ifSP, ifSK} {
+	for _, id := range []uint16{ifP, ifC, ifC2, ifK, ifK2, ifPE, ifSC, ifSP, ifSK} {
 		bfd[id] = r.Chance(65)
 	}
 	a := stdAS(r, bfd)
@@ -160,7 +160,7 @@ func (c *c15) history(hidx int) {
 	// BFD messages among them are skipped)
 	pre := r.Range(0, 4)
 	var evs []ldEvent
-	bfdIfs := []uint16{ifP, ifC, ifC2, ifK, ifK2, ifSC, ifSP, ifSK}
+	bfdIfs := []uint16{ifP, ifC, ifC2, ifK, ifK2, ifPE, ifSC, ifSP, ifSK}
 	hot := bfdIfs[r.Intn(len(bfdIfs))] // one link gets most of the events
 	for k := 0; k < n; k++ {
 		x := r.Intn(100)
@@ -170,7 +170,7 @@ func (c *c15) history(hidx int) {
 		}
 		switch {
 		case x < 34:
-			st := []int{0, 1, 1, 2, 2, 3, 3, 3}[r.Intn(8)]
+			st := []int{0, 1, 1, 2, 2, 2, 3, 3, 3, 3, 3}[r.Intn(11)]
 			evs = append(evs, ldEvent{kind: "recv", ifID: id, state: st})
 		case x < 40:
 			// a message followed by the detection time elapsing; only after a plain message on
@@ -190,10 +190,16 @@ func (c *c15) history(hidx int) {
 		case x < 52:
 			evs = append(evs, ldEvent{kind: "ohp", ifID: id})
 		default:
-			kind := []int{0, 0, 0, 1, 1, 2, 3, 3}[r.Intn(8)]
+			kind := []int{0, 0, 0, 1, 1, 2, 3, 3, 4}[r.Intn(9)]
 			sc, hops := randScenario(a, r, kind, -1)
-			b := a.buildPath(r, sc, hops, nowSec()-uint32(r.Range(1, 100)))
-			raw := b.packet(r, nil, randHost(r), nil, 0, r.Bytes(r.Range(0, 20)))
+			var raw []byte
+			if r.Chance(25) {
+				sc.name = "epic:" + sc.name
+				raw = a.validEpic(r, sc, hops, time.Now().UnixNano())
+			} else {
+				b := a.buildPath(r, sc, hops, nowSec()-uint32(r.Range(1, 100)))
+				raw = b.packet(r, nil, randHost(r), nil, 0, r.Bytes(r.Range(0, 20)))
+			}
 			evs = append(evs, ldEvent{kind: "pkt", sc: sc, raw: raw})
 		}
 	}
@@ -372,7 +378,11 @@ func (c *c15) probe(a, tw *asCfg, ev ldEvent, hidx, k int) {
 	} else if i.sibling {
 		scope = "sib"
 	}
-	tag := fmt.Sprintf("pkt/%s/%s/%s", scope, why, strings.Fields(ans)[0])
+	kindTag := "pkt"
+	if strings.HasPrefix(sc.name, "epic:") {
+		kindTag = "epic"
+	}
+	tag := fmt.Sprintf("%s/%s/%s/%s", kindTag, scope, why, strings.Fields(ans)[0])
 	if why == "nobfd" {
 		tag = "~" + tag
 	}
